@@ -106,6 +106,21 @@ def expected_objects(prog, outs):
     return files
 
 
+def rejected_first_for_set(prog, outs, only=None):
+    """True if some rejected creating call was the FIRST creating call for its (logical file, type, set name): such a call
+    leaves its empty set registered (known finding D22). `only`: restrict to one op kind (e.g. 'origin')."""
+    seen, hit = set(), False
+    for s0, o0 in zip(prog, outs):
+        if s0['op'] in ('origin', 'add', 'channel', 'frame'):
+            key = (s0.get('lf', 0), s0.get('type') or s0['op'], s0.get('set_name') or None)
+            if key not in seen and o0[0] == 'err' and (only is None or s0['op'] == only):
+                hit = True
+            seen.add(key)
+        elif s0['op'] == 'newfile':
+            seen = set()
+    return hit
+
+
 def expected_at(prog, outs, step):
     """Expectations for the file written by the (successful) write at index `step`: calls made after it are not in it."""
     files = expected_objects(prog[:step + 1], outs[:step + 1])
@@ -318,7 +333,7 @@ def check_identity_refs(ctx, dfile, det, check_origins=True, check_unique=True):
                     ctx.violation('indirect-record-references-undefined-object', {**det, 'logical_file': li, 'type': ty, 'reference': filemodel._obname(hdr[1][0])})
 
 
-def check_order(ctx, dfile, det, headers, defining=None):
+def check_order(ctx, dfile, det, headers, defining=None, defining_finding=None):
     """C09 on one decoded file. headers: per logical file (id, sequence number)."""
     lfs = dfile.logical_files()
     if len(lfs) != len(headers):
@@ -338,7 +353,8 @@ def check_order(ctx, dfile, det, headers, defining=None):
             continue
         do = recs[1].objects[0]
         if defining is not None and li < len(defining) and defining[li] is not None and do.name[2] != defining[li]:
-            ctx.violation('first-origin-object-is-not-the-defining-origin', {**det, 'logical_file': li, 'first_written': do.name, 'defining': defining[li]})
+            ctx.violation('first-origin-object-is-not-the-defining-origin', {**det, 'logical_file': li, 'first_written': do.name, 'defining': defining[li]},
+                          finding_key=defining_finding)
         fid, fsn = do.attrs.get('FILE-ID'), do.attrs.get('FILE-SET-NUMBER')
         if fid is None or fid.values != [('text', hid)]:
             ctx.violation('defining-origin-file-id-differs-from-header-id', {**det, 'logical_file': li, 'file_id': repr(fid)})
